@@ -84,8 +84,8 @@ func c39RateTok(r *Rng) string {
 	switch r.Intn(20) {
 	case 0:
 		return Pick(r, []string{"nan", "-0.5", "2", "100", "1.0000000000000002", "inf", "-inf", "-5e-324", "-1"})
-	case 1:
-		return Pick(r, []string{"1", "0", "-0", "5e-324", "0.9999999999999999", "1e-10"})
+	case 1, 5:
+		return Pick(r, []string{"1", "0", "0", "-0", "5e-324", "0.9999999999999999", "1e-10"})
 	case 2, 3:
 		return Pick(r, []string{"0.5", "0.1", "0.25", "0.9", "0.01", "0.75"})
 	case 4:
@@ -386,6 +386,9 @@ type c39Env struct {
 	em       *vgirpc.VerifC39Emitter
 	rate     float64
 	sampling bool
+	// what the caller asked for through SetSampleRate, independent of what the hook installed
+	askedRate   float64
+	askedValid  bool // a rate in [0, 1] was passed
 	reported int
 	events   []c39Event
 	aborted  bool
@@ -724,6 +727,13 @@ func (e *c39Env) doHook(l string, f []string) {
 				}
 			}
 		}
+		if !math.IsNaN(rate) && rate >= 0 && rate <= 1 {
+			e.askedRate, e.askedValid = rate, true
+			// a rate below 1 asks for sampling: the setter must have installed a sampler with that rate
+			if rate < 1 && !e.sampling {
+				c.Oracle("sampler-not-installed", fmt.Sprintf("SetSampleRate(%v) succeeded but the hook samples nothing", rate))
+			}
+		}
 		// the validity rule stated directly: NaN, <0, >1 must be refused; everything else accepted
 		bad := math.IsNaN(rate) || rate < 0 || rate > 1
 		if bad != (rs == "err") {
@@ -944,12 +954,42 @@ func (e *c39Env) finishAsync() {
 	c.Stat("async-accounted")
 }
 
-// samplerOracle: errors always kept; same identifier → same fate; kept non-error records carry the rate.
-func (e *c39Env) samplerOracle() {
-	if !e.sampling {
+// boundaryRateOracle states the two boundary rates directly on the hook-level path
+// (SetSampleRate + emit), independently of the model and of the hook's own idea of its sampler:
+// rate 0.0 keeps no record but the errors; rate 1.0 keeps everything.
+func (e *c39Env) boundaryRateOracle() {
+	if !e.askedValid || (e.askedRate != 0 && e.askedRate != 1) {
 		return
 	}
 	c := e.c
+	for _, ev := range e.events {
+		if ev.outcome == "discarded" || ev.id == 0 {
+			continue
+		}
+		sampled := ev.outcome == "sampled"
+		switch {
+		case e.askedRate == 0 && !ev.isErr && !sampled:
+			c.Oracle("rate-zero-keeps-nonerror", fmt.Sprintf("hook set to sample rate 0.0 kept non-error record %d (%s)", ev.id, ev.outcome))
+		case e.askedRate == 0 && ev.isErr && sampled:
+			c.Oracle("error-record-sampled", fmt.Sprintf("hook set to sample rate 0.0 dropped error record %d", ev.id))
+		case e.askedRate == 1 && sampled:
+			c.Oracle("rate-one-drops-record", fmt.Sprintf("hook set to sample rate 1.0 dropped record %d", ev.id))
+		}
+	}
+	c.Stat("boundary-rate")
+}
+
+// samplerOracle: errors always kept; same identifier → same fate; kept non-error records carry the rate.
+func (e *c39Env) samplerOracle() {
+	c := e.c
+	e.boundaryRateOracle()
+	// judged by what was ASKED for (a valid rate below 1), not by what the hook says it installed
+	if !(e.sampling || (e.askedValid && e.askedRate < 1)) {
+		return
+	}
+	if !e.sampling {
+		e.rate = e.askedRate
+	}
 	fate := map[string]string{}
 	kept := map[int64]bool{}
 	for _, ev := range e.events {
@@ -980,7 +1020,7 @@ func (e *c39Env) samplerOracle() {
 	lines := append([][]byte(nil), e.w.lines...)
 	e.w.mu.Unlock()
 	for _, ln := range lines {
-		p, err := c39ParseLine(ln, e.rate, e.sampling)
+		p, err := c39ParseLine(ln, e.rate, true)
 		if err != nil || p.id == 0 {
 			continue
 		}
